@@ -187,7 +187,7 @@ def replay_sequence(run, ct, rng, pool, seq, cfg):
         kw = dict(directory=directory, overwrite=ow, hash_method=cfg["hash"], cache_only=co,
                   directory_split=split)
         if kind == "hyper":
-            o = cls(methods=["greedy"], max_repeats=2, optlib="random", parallel=False,
+            o = cls(methods=["greedy"], max_repeats=2, optlib="random", parallel=False, minimize=cfg.get("minimize", "flops"),
                     slicing_opts={"target_slices": 2}, **kw)
         else:
             o = cls(max_repeats=2, seed=rng.randrange(1000), parallel=False, **kw)
@@ -304,6 +304,18 @@ def replay_sequence(run, ct, rng, pool, seq, cfg):
                             tuple(tree.sliced_inds) != tuple(answer["sliced_inds"]):
                         _viol(f"returned tree differs from the stored entry (path / sliced indices) for {net.kind}",
                                       desc, tags=tags | {"tree-differs-from-entry"})
+                    elif kind == "hyper":
+                        # the tree handed back carries the optimizer's objective: its own score is the stored score
+                        try:
+                            ts = tree.get_score()
+                        except Exception as e:
+                            ts = None
+                            _viol(f"returned tree cannot be scored: {core.exc_text(e)}", desc, tags=tags | {"tree-score"})
+                        shares = sum(1 for i in range(len(pool)) if hashes[i] == hashes[q - 1])
+                        if ts is not None and shares == 1 and abs(ts - answer["score"]) > 1e-9 * max(1, abs(ts)):
+                            _viol(f"the returned tree's own score {ts:.6f} (objective {getattr(tree, '_default_objective', None)}) is not "
+                                  f"the score {answer['score']:.6f} stored for it (optimizer built with minimize={cfg.get('minimize')}) "
+                                  f"for {net.kind}", desc, tags=tags | {"tree-score-differs-from-stored-score"})
                 if path is not None and tuple(map(tuple, path)) != tuple(map(tuple, answer["path"])):
                     _viol(f"returned path differs from the stored path for {net.kind}", desc, tags=tags | {"path-differs"})
                 # the stored score must be a score of the tree rebuilt for THIS query
@@ -387,7 +399,8 @@ def run(run):
                "disk": rng.random() < 0.7, "split": rng.choice([True, False, "auto"]),
                "overwrite": rng.choice(["no", "no", "yes", "improved", "improved"]),
                "cache_only_last": rng.random() < 0.3, "via_call": rng.random() < 0.4,
-               "fresh_process": (not quick) or rng.random() < 0.15, "auto_after_restart": rng.random() < 0.5}
+               "fresh_process": (not quick) or rng.random() < 0.15, "auto_after_restart": rng.random() < 0.5,
+               "minimize": rng.choice(["flops", "flops", "combo", "size", "write", "combo-256"])}
         pool = rng.choice(pools)
         if cfg["kind"] == "hyper" and rng.random() < 0.45:
             # answers handed in from outside (update_from_tree) with their own overwrite mode, anywhere in the sequence
